@@ -83,6 +83,9 @@ def scenario(rng, spec):
             orig_append = tap.log.append
 
         loop.on_endpoint = on_endpoint
+        if spec.get("late"):
+            lrng = env.rng(f"c15-late-{rng.random()}")
+            loop.lateness = lambda: lrng.choice([0.0, spec["late"] / 2, spec["late"]])
 
         async def handler(event, **kwargs):
             if event.name == "LOCATING_DISCOVERED_SPA":
@@ -123,7 +126,7 @@ def scenario(rng, spec):
         for e in ev:
             e.pop("_abs")
         ev.append({"k": "ret", "t": _ms(tret - t0), "spas": spas, "closed": closed, "loctasks": alive})
-    return {"ev": ev, "filter": flt, "hd": _ms(spec["hd"]),
+    return {"ev": ev, "filter": flt, "hd": _ms(spec["hd"]), "late": _ms(spec.get("late", 0)),
             "resp": {r.token: {"name": list(r.name.encode("latin1")), "ip": r.addr[0], "port": r.addr[1]} for r in resp},
             "const": {"poll": _ms(GeckoConstants.ASYNCIO_SLEEP_TIMEOUT_FOR_YIELD),
                       "initial": _ms(GeckoConfig.DISCOVERY_INITIAL_TIMEOUT_IN_SECONDS),
@@ -180,6 +183,14 @@ def run(ctx):
             lat = 9.6 + 0.05 * k
             logs.append(scenario(rng, {"responders": [("s1", "only", (lambda L: (lambda n: [L] if n == 0 else []))(lat))],
                                        "filter": "none", "hd": hd, "rank": "stable"}))
+    # a loaded host: every wake-up of the loop is up to 30 ms late; the bounds move by one lateness, not
+    # by one lateness per poll (runs that end by the timeout, by the initial wait, by the requested spa)
+    for late in (0.03, 0.01):
+        for flt, responders in (("none", []), ("absent", [("s1", "other", lambda n: [0.02])]),
+                                ("none", [("s1", "one", lambda n: [0.02] if n == 0 else [])]),
+                                ("s1", [("s1", "wanted", lambda n: [2.5] if n == 0 else [])]),
+                                ("addr", [("s1", "addressed", lambda n: [0.3] if n == 1 else [])])):
+            logs.append(scenario(rng, {"responders": responders, "filter": flt, "hd": 0, "rank": "stable", "late": late}))
     groups = {}
     for lg in logs:
         c = lg["const"]
